@@ -529,6 +529,15 @@ def handleCodec (id : String) (args : List String) : String :=
             | .err _, none => .ok
             | _, _ => .viol "compact-accepts-differs"
           some (m, v)
+        else if fn = "compactesc" then
+          let m : Obs := match Scanner.compact true y with | some b => .ok b | none => .err '-'
+          let v : Verdict := match obs, parseCst y with
+            | .ok out, some c =>
+              if hasRawHtml out then .viol "escaping-left-raw-char"
+              else if (parseCst out).map Cst.valueOf |>.map (Value.beq c.valueOf) |>.getD false then .ok else .viol "compact-escape-changed-value"
+            | .err _, none => .ok
+            | _, _ => .viol "compact-accepts-differs"
+          some (m, v)
         else if fn = "indent" then
           let m : Obs := match Scanner.indent x y with | some b => .ok b | none => .err '-'
           let v : Verdict := match obs, parseCst y with
@@ -835,10 +844,13 @@ namespace Driver
 something else earlier in the history: that is a C09 violation whatever the model says -/
 def handle (line : String) : String :=
   let r := handle1 line
-  if (line.splitOn " ").contains "hist=diff" then
-    (r.replace "C09=ok" "C09=viol:result-depends-on-call-history")
-      ++ (if (r.splitOn "C09=").length > 1 then "" else " C09=viol:result-depends-on-call-history")
-  else r
+  let toks := line.splitOn " "
+  let mark (r : String) (clause : String) : String :=
+    (r.replace "C09=ok" ("C09=viol:" ++ clause))
+      ++ (if (r.splitOn "C09=").length > 1 then "" else " C09=viol:" ++ clause)
+  let r := if toks.contains "hist=diff" then mark r "result-depends-on-call-history" else r
+  -- an earlier result that the caller still holds changed under a later call
+  if toks.contains "held=changed" then mark r "earlier-result-overwritten" else r
 
 end Driver
 end JP
